@@ -665,7 +665,7 @@ class ISD(model.Document):
     return None
 
 def _conform_ruby_children(
-    isd: ISD,
+    isd: model.Document,
     isd_element: typing.Union[model.Ruby, model.Rtc],
     children: typing.List[model.ContentElement]
   ) -> typing.List[model.ContentElement]:
@@ -1469,6 +1469,11 @@ def _clone_doc_with_one_region(doc: model.ContentDocument, region_id: str):
         new_children.append(new_child)
 
     if len(new_children) > 0:
+
+      if isinstance(new_element, (model.Ruby, model.Rtc)):
+        # some of the children may have been pruned
+        new_children = _conform_ruby_children(new_doc, new_element, new_children)
+
       new_element.push_children(new_children)
 
     return new_element
